@@ -100,6 +100,35 @@ def definition(ctx, n, which, dt=None):
     neg = _measure(ctx, ctx.lib.AccSignal(-a, dt), which)
     ctx.claim('sign_reversal_invariant', S.sym_and(*[ctx.eq(neg[i], ser[i], sc) for i in range(n)]))
 
+ALL_MEASURES = ('arias', 'cav', 'isv', 'abs_vel', 'cad', 'abs_acc', 'uke')
+
+
+def same_object(ctx, n, first, dt=0.01):
+    """Every measure computed on ONE AccSignal after `first` (twice) has already been computed on it equals the measure of
+    a freshly constructed object, and the object's record / velocity / displacement are what they were: a measure that
+    works in place on a cached series (velocity is cached and handed out without a copy) shows here."""
+    a = ctx.arr('a', n, -30.0, 30.0)
+    lib = ctx.lib
+    asig = lib.AccSignal(a, dt)
+    fresh0 = lib.AccSignal(a, dt)
+    v0 = [x + 0.0 for x in fresh0.velocity]
+    d0 = [x + 0.0 for x in fresh0.displacement]
+    _measure(ctx, asig, first)
+    r2 = _measure(ctx, asig, first)
+    want = _measure(ctx, lib.AccSignal(a, dt), first)
+    sc = (30.0 ** 2) * (10.0 * n) ** 3
+    ctx.observe('again', r2)
+    ctx.claim('same_result_when_called_again_on_the_object', S.sym_and(len(r2) == len(want), *[ctx.eq(r2[i], want[i], sc) for i in range(min(len(r2), len(want)))]))
+    ok = []
+    for which in ALL_MEASURES:
+        got = _measure(ctx, asig, which)
+        ref = _measure(ctx, lib.AccSignal(a, dt), which)
+        ok.append(S.sym_and(len(got) == len(ref), *[ctx.eq(got[i], ref[i], sc) for i in range(min(len(got), len(ref)))]))
+    ctx.claim('later_measures_on_the_object_equal_fresh_object', S.sym_and(*ok), first)
+    ctx.claim('object_series_unchanged_by_measures',
+              S.sym_and(*([ctx.eq(asig.values[i], a[i], sc) for i in range(n)] + [ctx.eq(asig.velocity[i], v0[i], sc) for i in range(n)] +
+                          [ctx.eq(asig.displacement[i], d0[i], sc) for i in range(n)])), first)
+
 
 def scaling(ctx, n, which, dt=None, alpha=None):
     a = ctx.arr('a', n, -30.0, 30.0)
@@ -163,7 +192,7 @@ def cav_dp(ctx, dt, seconds):
               S.sym_and(ctx.le(total - slack, final, sc), ctx.le(final, total, sc)))
 
 
-SCENARIOS = {'definition': definition, 'scaling': scaling, 'zero_padding': zero_padding, 'cav_dp': cav_dp}
+SCENARIOS = {'definition': definition, 'scaling': scaling, 'zero_padding': zero_padding, 'cav_dp': cav_dp, 'same_object': same_object}
 SELFTEST_PER_SCENARIO = 4
 
 
@@ -181,6 +210,9 @@ def obligations(tier, seed):
             else:
                 for al in (-2.5, 0.25):
                     yield Ob('scaling', {'n': n, 'which': which, 'dt': 0.01, 'alpha': al}, query_ms=60000)
+    for first in ALL_MEASURES:
+        for n in ((3,) if q else (3, 6)):
+            yield Ob('same_object', {'n': n, 'first': first}, query_ms=60000)
     for which in ACC_BASED:
         for n in ([2, 5] if q else [2, 4, 9]):
             for k in ((1, 3) if q else (1, 2, 4)):
